@@ -86,11 +86,20 @@ func genC11(seed uint64, index int, tier string) C11Cfg {
 		b.n = r.Range(2, 5)
 	}
 	s := baseSess(b, r)
+	if r.Bool(0.03) && b.n >= 2 {
+		// the tss-lib EdDSA adapter under the same faults (about a second per run)
+		b.backend, b.op = "eddsa", "keygen"
+		s = baseSess(b, r)
+		s.Deploy.Threshold = b.n - 1
+	}
 	s.Deploy.SP.Lockstep = r.Bool(0.5)
 	s.Deploy.SignSP.Lockstep = r.Bool(0.5)
 	s.T = r.Range(2, max(2, b.n))
 	if b.n == 2 {
 		s.T = 2
+	}
+	if b.backend == "eddsa" {
+		s.T = b.n - 1 // tss-lib threshold: t+1 parties reconstruct
 	}
 	s.Strategy = pickStr(r, netsim.Strategies)
 	s.Serial = true
@@ -321,6 +330,9 @@ func runC11(t *testing.T, spec RunSpec) *RunResult {
 		}
 		if cfg.Enum && !faultFired {
 			res.Skipped = true // the enumeration index lies beyond the end of this run's traffic
+		}
+		if cfg.Enum && faultFired {
+			w.Probes["enumerated-"+cfg.Fault+"-points"]++
 		}
 		res.Nontrivial = faultFired && inflight
 		d.Teardown()
